@@ -127,15 +127,25 @@ def canon_inter(dg):
                   for sec, lst in dg["inter"].items() for at, p, m in lst)
 
 
+# block with several terms on the same atoms: four dihedral terms and three angle terms (in .ff syntax they need explicit
+# version tags, a polyply .itp cannot carry any)
+Q_BLOCK = dict(nrexcl=1,
+               atoms=[("BB", "Q1", 0.0, 20.0, 1), ("Q2", "Q2", 0.1, 21.0, 2), ("Q3", "Q3", -0.1, 22.0, 3), ("Q4", "Q4", 0.0, 23.0, 4)],
+               inter={"bonds": [F.I(["BB", "Q2"], ["1", "0.11", "4001"]), F.I(["Q2", "Q3"], ["1", "0.12", "4002"]), F.I(["Q3", "Q4"], ["1", "0.13", "4003"])],
+                      "angles": [F.I(["BB", "Q2", "Q3"], ["10", str(100 + 10 * k), str(20 + k)], {"version": k + 1}) for k in range(3)],
+                      "dihedrals": [F.I(["BB", "Q2", "Q3", "Q4"], ["9", str(60 * k), f"{k + 1}.5", str(k + 1)], {"version": k + 1}) for k in range(4)]})
+
+
 def check_itp(case, stats):
     from ..enum_graphs import labelled_graphs
     viols, evals, keys = [], 0, []
     blocks = {k: F.BLOCKS[k] for k in "ABCD"}
+    blocks["Q"] = Q_BLOCK
     ff_text = "\n".join(F.render_block_ff(k, b) for k, b in blocks.items())
     itp_text = "\n".join(F.render_block_itp(k, b) for k, b in blocks.items())
     n = case["n"]
     for es, rank in labelled_graphs(n):
-        for rn in itertools.product("ABCD" if n <= 2 else "ACD", repeat=n):
+        for rn in itertools.product("ABCDQ" if n <= 2 else "AQD", repeat=n):
             for start in (1, 5):
                 rg = dict(n=n, edges=[list(e) for e in es], resids=[start + r for r in rank], resnames=list(rn))
                 evals += 1
